@@ -199,6 +199,12 @@ def u2_files(sc, root: str) -> dict:
                                                   f"class {nm[1]}(_Base{s}):\n    def m_d1(self) -> int:\n        ...\n\n\n"
                                                   f"class {nm[2]}(_Base{s}):\n    def m_shared(self, from_own: int) -> int:\n        ...\n\n    def m_d2(self) -> int:\n        ...\n")
         files[f"{sid}/sub/{nm['m2']}.py"] = "def fillb" + s + "() -> int:\n    ...\n"
+    if sc.get("variant") == "pkgmodreexp":   # both declarations live in package files; sub re-exports the package deep as a module
+        files[f"{sid}/sub/deep/{nm['m1']}.py"] = "def filldeep" + s + "() -> int:\n    ...\n"
+        files[f"{sid}/sub/{nm['m2']}.py"] = "def fillsub" + s + "() -> int:\n    ...\n"
+        files[f"{sid}/sub/deep/__init__.py"] = decl(1)
+        files[f"{sid}/sub/__init__.py"] = "from . import deep\n\n\n" + decl(2)
+        return files
     if sc.get("variant") == "initdecl":      # declaration 1 lives in the package file; the package keeps a module of its own
         files[f"{sid}/sub/deep/{nm['m1']}.py"] = "def fillinit" + s + "() -> int:\n    ...\n"
         files[f"{sid}/sub/deep/__init__.py"] = decl(1)
